@@ -58,4 +58,10 @@ def conv_builder(beh, tid):
     return [{"t": tid, "steps": [{"a": s["a"], "v": list(s["v"])} for s in beh["steps"]]}]
 
 
-CONVERTERS = {"packet": conv_packet, "frame": conv_frame, "session": conv_session, "builder": conv_builder}
+def conv_container(beh, tid):
+    steps = [{"a": s["a"], "t": s["t"], "v": list(s["v"])} for s in beh["steps"]]
+    return [{"t": tid * 2, "kind": "smpp", "steps": steps}, {"t": tid * 2 + 1, "kind": "smgp", "steps": steps}]
+
+
+CONVERTERS = {"packet": conv_packet, "frame": conv_frame, "session": conv_session, "builder": conv_builder,
+              "container": conv_container}
